@@ -111,7 +111,7 @@ def judge(mode: str, cfg: dict, oracle: Oracle, rec: dict) -> dict[str, bool]:
         v["UnmetPolicyRW"] = True
     # C05
     evals_max = [e for e in log if e["e"] == "eval" and e["h"] == HMAX]
-    if sel and not esc and mode != "RW" and noties:
+    if sel and mode != "RW" and noties:
         v["NoLessDrillingEvaluated"] = all(n_sel * H <= e["n"] * HMAX + 1e-3 for e in evals_max if e["v"] < 0)
     else:
         v["NoLessDrillingEvaluated"] = True
